@@ -69,6 +69,10 @@ CHECKS = {
             "Tape-generated call histories on one Writer (Write of any length incl. 0 and block-aligned sizes, Close at any point and repeated, GetWritten) and on one Reader over the produced stream (Read of any length incl. 0, Close repeated, GetRead), jobs 1-4 under the scheduler, optionally one transient sink failure during Close; every return value is compared with a small lifecycle machine (open / close-failed / closed; bytes accepted; cursor) as the call returns.",
             "After a failed Close only Close/GetWritten are issued (the state is not specified by the property); a failure that hit a block task leaves the writer permanently failed, which is C08's business.",
             SIM + "random API call histories against a lifecycle reference machine"),
+    "C18": ("exploration",
+            "K = 2-4 (thorough: up to 8) driver tasks in one process, each compressing then decompressing its own stream (codecs weighted toward those with package-level tables: TEXT dictionary, CM/TPAQ/FPAQ tables, Huffman, BWT; thorough adds blocks above 4 MiB so the inverse-BWT helper goroutines run), all block tasks of all streams under ONE seeded scheduler plus the hand-off monitor per stream. The worker is built with -race and the simulator's baton is wrapped in runtime.RaceDisable, so the happens-before relation the detector judges is the library's own and the verdict is a function of the (replayable) schedule. Oracle: per instance, compressed and decoded bytes equal those of the same instance run alone; no race report (exit 66 is charged to the case in flight and confirmed by replaying it alone).",
+            "The race detector sees only the executions explored (sampling). Race builds are about 8x slower: fewer cases than the other checks.",
+            SIM + "K concurrent pipelines under one scheduler, Go race detector with a baton invisible to it, differential oracle against isolated runs"),
 }
 
 ORDER = ["C01", "C02", "C03", "C04", "C05", "C06", "C07", "C08", "C09", "C10", "C11", "C12", "C13", "C14", "C15", "C16", "C17", "C18", "C19"]
